@@ -22,6 +22,32 @@ def verify_helper_items(run, stats, world, interp, items):
         verify(run, stats, world, interp, fi, contract, label, on_fail, lambda msg, label=label: run.notes.append(f"{label}: outside the verified subset ({msg}); covered by the table / item comparison only"))
 
 
+def verify_report(run, stats, world, rep, label, what):
+    """Discharge a relational-contract report (vc.generate_post) and route failures."""
+    from pyvc import vc as _vc
+
+    if rep is None:
+        run.notes.append(f"{label} not found")
+        return
+    stats.functions.append(label)
+    if rep.unsupported:
+        stats.unsupported.append(f"{label}: {rep.unsupported}")
+        run.notes.append(f"{label}: outside the verified subset ({rep.unsupported}); covered by the item comparison only")
+        return
+    stats.solver_s += _vc.solve(world, rep.obligations)
+    posts = [o for o in rep.obligations if o.expect == "unsat"]
+    stats.obligations += len(posts)
+    stats.discharged += len([o for o in posts if o.answer == "unsat"])
+    for o in posts:
+        if o.answer == "unsat":
+            stats.by_backend[o.backend] += 1
+        elif o.answer == "sat":
+            m = {k: v for k, v in (o.model or {}).items() if not k.endswith(".oid")}
+            run.violation(f"{label}:post", f"{what} ({o.meta.get('impl')})", {"model": m, "path": o.meta, "solver_output": o.solver_output[-800:]}, False)
+        else:
+            run.undecide(f"{o.name}: {o.answer}")
+
+
 def verify_field_validator(run, stats):
     from contracts import genhelpers as gh
     from pyvc import vc as _vc
